@@ -9,27 +9,53 @@ TB = ("Coq 8.16.1 kernel incl. vm_compute (no native_compute); axioms: none decl
       "own float64.ml shim, Float.pow) and the Rust harness for the bit-exact correspondence; floating-point rounding is "
       "modelled (bit-exact replay), not verified, in the real-arithmetic theorems.")
 
+def C(text, technique, design, partial=False):
+    return dict(text=text, technique=technique, design=design, partial=partial)
+
+
+TIE = " Tie to /repo: constants regenerated from the source each run; the extracted model is replayed against the implementation bit for bit on generated cases, and the property's clauses are checked on the implementation's results (failing-input search)."
+
 CLAIMS = {
- "C02": dict(
-    text="Order conditions of every rooted tree up to p (and failure at p+1), embedded-estimator orders and row sums are Coq theorems over the tableau regenerated from the Rust constants on every run; universally quantified over trees via a proved-complete enumeration.",
-    technique="Coq proof: rational order-condition certificates (vm_compute + enumeration completeness) over constants translated from source",
-    design="3/C02", partial=False),
- "C03": dict(
-    text="Coq theorems (real-arithmetic semantics, any kernel/right-hand side/callback): accepted abscissae move strictly toward xend and never pass it, Success implies x = xend; tied to /repo by bit-exact replay of the extracted model over the configuration sweep, with the property's clauses (incl. evaluation times) checked on the implementation's call log.",
-    technique="Coq proof of skeleton invariants over R + bit-exact model/implementation correspondence",
-    design="3/C03", partial=True),
- "C11": dict(
-    text="Coq theorems: step-budget count and bit-identical budget prefix (any number type), max_step bound with the 1% landing stretch (real semantics, any kernel); tied to /repo by bit-exact replay with random max_step/first_step/max_steps.",
-    technique="Coq proof of skeleton invariants + bit-exact correspondence",
-    design="3/C11", partial=True),
- "C12": dict(
-    text="Coq theorems: the default handler is passive unless an event is terminal; two passive observers see literally the same solver trajectory (any number type, kernel, callbacks); tied to /repo by bit-exact replay of option-subset groups.",
-    technique="Coq proof (relational invariant over the skeleton) + bit-exact correspondence",
-    design="3/C12", partial=False),
- "C18": dict(
-    text="Coq theorems for the four explicit solvers (any number type, right-hand side, callback): nfev equals the number of logged right-hand-side evaluations, naccpt <= nstep (RK4: =); tied to /repo by bit-exact replay comparing counters with recorded calls.",
-    technique="Coq proof of counter invariants + bit-exact correspondence",
-    design="3/C18", partial=True),
+ "C01": C("Coq theorems on the DOPRI5 model (any number type): the solution advances only through steps whose weighted error norm is <= 1, and that norm is built from the user's atol/rtol. The global error bound itself is an analytic consequence and is only measured (closed-form families, tolerance sweeps)." + TIE,
+          "Coq proof of the acceptance mechanism + bit-exact correspondence + accuracy experiment", "3/C01", True),
+ "C02": C("Order conditions of every rooted tree up to p (and failure at p+1), embedded-estimator orders and row sums are Coq theorems over the tableaux (RK4, RK23, DOPRI5; exact and as-rounded) regenerated from the Rust constants on every run; universally quantified over trees via a proved-complete enumeration. DOP853/Radau orders are covered by the one-step slope experiment and the bit-exact replay only." + TIE,
+          "Coq proof: rational order-condition certificates (vm_compute + enumeration completeness) over constants translated from source", "3/C02", True),
+ "C03": C("Coq theorems (real-arithmetic semantics, any kernel/right-hand side/callback, DOPRI5 skeleton): accepted abscissae move strictly toward xend and never pass it, Success implies x = xend, x = xend implies Success or UserInterrupt." + TIE,
+          "Coq proof of skeleton invariants over R + bit-exact correspondence", "3/C03", True),
+ "C04": C("Coq theorems: on binary64 a NaN error norm fails every comparison and Rust's min/max drop NaN (Floats.FloatAxioms), rejections never enlarge the step (real semantics), a finite budget bounds the number of attempts. Float-level termination with an unlimited budget is not proved: watchdog runs on pathological problems." + TIE,
+          "Coq proof of the termination mechanism + watchdog differential runs", "3/C04", True),
+ "C05": C("Coq theorem (any number type, any interpolant): the t_eval scan of an accepted step consumes exactly the pending requested times not beyond the step end and reports, in order, bit for bit and with the interpolant's value, those not before the step start." + TIE + " Grid-aware placements (inside, on a boundary, +-1 ulp, +-1e-12, +-1e-9).",
+          "Coq proof of the sampling loop + bit-exact correspondence", "3/C05", True),
+ "C06": C("Tie only in this revision: every sol(t) value, span and error is replayed bit for bit on the model and the property's clauses (sol(t_i)=y_i, no jumps, out-of-range, NotEnabled, zero-length run) are checked on the implementation; endpoint identities are not yet theorems.",
+          "bit-exact model/implementation correspondence + dense-output oracles (no theorem yet: partial)", "3/C06", True),
+ "C07": C("Tie only in this revision: dense coefficients are part of the bit-exact replay; the interpolant's order is measured by one-step slope fits from exact data (explicitly time-dependent problems); continuous order conditions are not yet theorems.",
+          "bit-exact correspondence + one-step slope experiment (no theorem yet: partial)", "3/C07", True),
+ "C08": C("Coq theorems: a reported event is a step endpoint with its stored state or (t_e, interpolant(t_e)); events of a step are a stable sort (permutation, ordered) of the detected ones; direction filter truth table (real semantics). Brent's bracket invariant is not yet a theorem." + TIE,
+          "Coq proof (handler model) + bit-exact correspondence incl. every Brent iterate", "3/C08", True),
+ "C09": C("Coq theorems (real semantics): strictly opposite signs are always detected by All and by the matching one-sided filter only; equal strict signs never. Exactly-one-event for a single root is checked on grid-aware placements." + TIE,
+          "Coq proof of the detection predicate + bit-exact correspondence", "3/C09", True),
+ "C10": C("Coq theorems (any number type): a terminal event makes the newest sample the event point, the handler returns Interrupt iff a terminal event fired and never without a terminal configuration." + TIE,
+          "Coq proof (handler model) + bit-exact correspondence", "3/C10", True),
+ "C11": C("Coq theorems: step-budget count and bit-identical budget prefix (any number type), max_step bound with the 1% landing stretch (real semantics, any kernel)." + TIE,
+          "Coq proof of skeleton invariants + bit-exact correspondence", "3/C11", True),
+ "C12": C("Coq theorems: the default handler is passive unless an event is terminal; two passive observers see literally the same solver trajectory (any number type, kernel, callbacks)." + TIE,
+          "Coq proof (relational invariant over the skeleton) + bit-exact correspondence", "3/C12", False),
+ "C13": C("Coq theorem: a scalar tolerance denotes the same per-component vector as the constant vector (all models read tolerances through it). Reflection/scaling/duplication equivariance are checked by paired bit-exact runs." + TIE,
+          "Coq proof (tolerance representation) + paired differential runs", "3/C13", True),
+ "C14": C("Tie only in this revision: Radau and BDF (incl. real and complex LU, Newton iterations) are replayed bit for bit on stiff linear/nonlinear problems with rates 1e2..1e10; success, accuracy, step counts and invariants are measured. No stability theorem yet.",
+          "bit-exact correspondence + stiff-problem oracles (no theorem yet: partial)", "3/C14", True),
+ "C15": C("Coq theorems: with no mass matrix the solvers read the identity whatever the mass storage; Full and Banded storage (and wider bands) holding the same entries denote the same matrix to the solvers." + TIE,
+          "Coq proof (storage independence of the model's matrix reads) + bit-exact correspondence", "3/C15", True),
+ "C16": C("Tie only in this revision: lu_decomp/lin_solve replayed bit for bit (n=1..12, small-integer exhaustive up to 3x3 in the thorough tier); residual checked in exact rational arithmetic, multipliers, singular and shape errors checked. The exact-arithmetic correctness theorem is not yet proved.",
+          "bit-exact correspondence + exact-rational residual oracle (no theorem yet: partial)", "3/C16", True),
+ "C17": C("Tie only in this revision: constructor/write/operator sequences replayed bit for bit against the closed-form Matrix model and compared entrywise with a dense reference (n=1..8, all storages).",
+          "bit-exact correspondence + dense-reference oracle (no theorem yet: partial)", "3/C17", True),
+ "C18": C("Coq theorems for the four explicit solvers (any number type, right-hand side, callback): nfev equals the number of logged right-hand-side evaluations, naccpt <= nstep (RK4: =)." + TIE,
+          "Coq proof of counter invariants + bit-exact correspondence", "3/C18", True),
+ "C19": C("Coq theorems (DOPRI5 skeleton, any number type/kernel/callback): recorded callback intervals are contiguous, the newest ends at the solver's final x, UserInterrupt iff the newest call returned Interrupt, nothing runs after an Interrupt, at most one call per loop iteration." + TIE + " Scripted SolOut replays for all six solvers.",
+          "Coq proof (callback-trace invariant) + scripted-callback bit-exact correspondence", "3/C19", True),
+ "C20": C("Coq theorems: SciPy (n, m) layout of the transposition, status 0/1/-1 with success = status >= 0, and for every sparsity pattern the greedy grouping never puts two columns sharing a row into one group. Tie: the extension built from /repo is run in Python on the same cases as the Rust API and the model (bit for bit), grouping read through the cfg(ivp_verif) hook.",
+          "Coq proof (layout, grouping validity) + Python/Rust/model differential", "3/C20", True),
 }
 
 NA_REASON = "check not built yet in this revision (planned in DESIGN.md §5); not claimed until its theorem file and correspondence exist"
@@ -48,7 +74,7 @@ def main():
             "evidence_file": "/verif/evidence/%s.json" % pid,
             "replay_cmd_template": "./vcheck replay {path}",
             "engine": "coq-proof+correspondence",
-            "level_claimed": {"category": "proof", "text": c["text"] + (" PARTIAL: see DESIGN.md." if c.get("partial") else ""), "design_ref": c["design"]},
+            "level_claimed": {"category": ("translation_validation" if "no theorem yet" in c["technique"] else "proof"), "text": c["text"] + (" PARTIAL: see DESIGN.md." if c.get("partial") else ""), "design_ref": c["design"]},
             "level_note": TB,
             "technique": c["technique"],
         })
@@ -59,7 +85,7 @@ def main():
             "guard": "ivp_verif",
             "enable": "RUSTFLAGS=\"--cfg ivp_verif\" (set by vlib/harness.py when it builds /verif/harness against /repo)",
             "baseline_off_cmd": "cd /repo && cargo test --workspace --no-fail-fast --offline",
-            "source_commits": [],
+            "source_commits": ["469a144"],
             "add_only": True,
         },
         "engines": [{
